@@ -15,6 +15,7 @@ import (
 
 func init() {
 	register(&PropertyCheck{ID: "C01", Level: "other", Run: checkC01, Canaries: []Canary{
+		{Name: "options-byte-written-only-when-non-zero", Rule: "R1.1", Where: "Subscribe", Edits: []Edit{{"topicfilter.go", "\ti += c.options.fill(b, i)", "\ti += c.options.fillOpt(b, i) // subscription options"}}},
 		{Name: "user-property-value-before-key-on-both-sides", Rule: "R1.4", Where: "UserProp", Edits: []Edit{
 			{"wiretypes.go", "\ti += wstring(v[0]).fill(data, i)\n\t_ = wstring(v[1]).fill(data, i)", "\ti += wstring(v[1]).fill(data, i)\n\t_ = wstring(v[0]).fill(data, i)"},
 			{"wiretypes.go", "\tv[0] = string(key)\n\n\ti := len(v[0]) + 2", "\tv[1] = string(key)\n\n\ti := len(v[1]) + 2"},
@@ -765,6 +766,10 @@ func (p *Prog) widthAgreement(c *Check, rule string) {
 		}
 		ws := p.retSummary(w)
 		if ws.exact == nil {
+			if r := p.vbiEvalFor(w); r != nil && r.ok(w) {
+				c.OK(rule, cons, pos, fmt.Sprintf("width() is the length of the encoding (and the encoder's dry run) on all %d evaluated values (C15 R15.6)", r.nvals))
+				continue
+			}
 			c.Unk(rule, cons, pos, "width() has no exact summary and is not the encoder's dry run")
 			continue
 		}
@@ -878,6 +883,7 @@ func checkAdders(p *Prog, c *Check) {
 						if call == 1 {
 							a.i = (v % 100) + 3 // the second call adds another value
 						}
+						// the third call adds the first value once more: duplicates stay
 						return a, []string{fmt.Sprint(a.i)}, true
 					}})
 				}
@@ -885,6 +891,9 @@ func checkAdders(p *Prog, c *Check) {
 				for _, variant := range []int{0, 1} {
 					variant := variant
 					sets = append(sets, callArgs{fmt.Sprintf("abstract elements (variant %d)", variant), func(ctx *symCtx, call int) (sv, []string, bool) {
+						if call == 2 {
+							call = 0 // the third call passes what the first one passed
+						}
 						a, ok := p.abstractArg(ctx, fmt.Sprintf("%s·%d", s.Name(), call), pt, variant+2*call)
 						if !ok {
 							return sv{}, nil, false
@@ -892,6 +901,21 @@ func checkAdders(p *Prog, c *Check) {
 						return a, elemsOf(ctx, a), true
 					}})
 				}
+			}
+			if bt, ok := pt.Underlying().(*types.Basic); ok && bt.Info()&types.IsString != 0 || isByteSlice(pt) {
+				// the empty string is an argument like any other: it is appended (a decoder accepts it from the wire, so a
+				// decoded packet could not be rebuilt through the API otherwise)
+				sets = append(sets, callArgs{"empty first", func(ctx *symCtx, call int) (sv, []string, bool) {
+					if call == 0 || call == 2 {
+						a := sv{k: 's', i: 0, addr: "val:" + s.Name() + ":empty"}
+						return a, []string{p.readDeep(ctx, a, pt, 0)}, true
+					}
+					a, ok := p.abstractArg(ctx, fmt.Sprintf("%s·%d", s.Name(), call), pt, 0)
+					if !ok {
+						return sv{}, nil, false
+					}
+					return a, elemsOf(ctx, a), true
+				}})
 			}
 			bad, unk := "", ""
 			neval := 0
@@ -908,7 +932,7 @@ func checkAdders(p *Prog, c *Check) {
 				}
 				prev := obs0
 				var firstElems []string
-				for call := 0; call < 2 && bad == "" && unk == ""; call++ {
+				for call := 0; call < 3 && bad == "" && unk == ""; call++ {
 					a, elems, ok := set.mk(ctx, call)
 					if !ok {
 						unk = "no abstract argument for " + typeStr(pt)
@@ -955,9 +979,7 @@ func checkAdders(p *Prog, c *Check) {
 					case !found:
 						bad = fmt.Sprintf("%s(%s), call %d: %v changed, but none now holds what was there before followed by the elements passed (in order)", s.Name(), strings.Join(elems, ", "), call+1, changed)
 					}
-					if call == 0 {
-						firstElems = elems
-					}
+					firstElems = append(firstElems, elems...)
 					prev = obs
 				}
 			}
